@@ -374,6 +374,20 @@ impl Sim {
                     *self.stats.ix_ok.entry(tag.clone()).or_insert(0) += 1;
                 } else {
                     *self.stats.ix_err.entry(tag.clone()).or_insert(0) += 1;
+                    if tag == "accrue_interest" {
+                        if let Ok(v) = std::env::var("MFISIM_DEBUG_ACCRUE") {
+                            if !v.is_empty() {
+                                let code = out.result.as_ref().err().map(|e| e.code);
+                                if code == Some(6062) {
+                                    if let Some(b) = tx.ixs.first().and_then(|i| i.accounts.get(1)).and_then(|m| crate::model::bank_of(&self.store, &m.pubkey)) {
+                                        let q = crate::model::BankQ::of(&b);
+                                        eprintln!("accrue MathError: A={} L={} asv={} lsv={} dt={} curve0={} curve100={} pts={:?}", crate::model::q_str(&q.assets()), crate::model::q_str(&q.liabs()), crate::model::q_str(&crate::model::q_w(b.asset_share_value)), crate::model::q_str(&crate::model::q_w(b.liability_share_value)), self.clock.unix_timestamp - b.last_update, b.config.interest_rate_config.zero_util_rate, b.config.interest_rate_config.hundred_util_rate, b.config.interest_rate_config.points.iter().map(|p| (p.util, p.rate)).collect::<Vec<_>>());
+                                    }
+                                }
+                                eprintln!("accrue failed: {:?}", out.result.as_ref().err().map(|e| (e.code, e.msg.clone())));
+                            }
+                        }
+                    }
                 }
                 self.last_tags.push(format!("{}:{}", tx.actor, tag));
                 if self.last_tags.len() >= 3 {
